@@ -718,12 +718,13 @@ struct Interp {
   void
   CheckAllBools(const char *after)
   {
+    (void)after;
     for (int s = 0; s < kSlots; ++s) {
-      if (tm.engaged[0][s]) ExpectBool(after, static_cast<bool>(*S[s]), tm.own[0][s] >= 0);
-      if (tm.engaged[1][s]) ExpectBool(after, static_cast<bool>(*X6[s]), tm.own[1][s] >= 0);
-      if (tm.engaged[2][s]) ExpectBool(after, static_cast<bool>(*X[s]), tm.own[2][s] >= 0);
+      if (tm.engaged[0][s]) ExpectBool("a later operation (SGuard)", static_cast<bool>(*S[s]), tm.own[0][s] >= 0);
+      if (tm.engaged[1][s]) ExpectBool("a later operation (SIXGuard)", static_cast<bool>(*X6[s]), tm.own[1][s] >= 0);
+      if (tm.engaged[2][s]) ExpectBool("a later operation (XGuard)", static_cast<bool>(*X[s]), tm.own[2][s] >= 0);
 #if LK == 1
-      if (tm.engaged[3][s]) ExpectBool(after, static_cast<bool>(*C[s]), tm.own[3][s] >= 0);
+      if (tm.engaged[3][s]) ExpectBool("a later operation (CompositeGuard)", static_cast<bool>(*C[s]), tm.own[3][s] >= 0);
 #endif
     }
   }
